@@ -537,3 +537,352 @@ Proof.
   split; [intros Hl; eexists; split; [apply (cl_closed s Hl)|reflexivity]|].
   apply cl_reaches_closed, HI.
 Qed.
+
+(* ===================================================== C14_dying_stops == *)
+
+(* no goroutine is inside an acknowledgement closure *)
+Definition clos_idle (s : bc) : bool := forallb clo_idle (clos s).
+
+Lemma in_closure_idle s g : clos_idle s = true -> in_closure s g = false.
+Proof.
+  unfold clos_idle, in_closure. induction (clos s) as [|c l IH]; cbn [forallb existsb]; [reflexivity|].
+  intros H. apply andb_true_iff in H as [H1 H2]. rewrite (IH H2), orb_false_r.
+  unfold clo_idle in H1. unfold clo_on. destruct (c_stat c); try discriminate H1; reflexivity.
+Qed.
+
+Lemma clo_stat_find_idle l f :
+  forallb clo_idle l = true -> f CReg = false -> f CDone = false -> clo_stat_find l f = None.
+Proof.
+  intros H Hr Hd. induction l as [|c l IH]; cbn [clo_stat_find forallb] in *; [reflexivity|].
+  apply andb_true_iff in H as [H1 H2]. unfold clo_idle in H1.
+  destruct (c_stat c); try discriminate H1; rewrite ?Hr, ?Hd; apply IH, H2.
+Qed.
+
+Lemma clo_del_find_idle l g id : forallb clo_idle l = true -> clo_del_find l g id = None.
+Proof.
+  intros H. induction l as [|c l IH]; cbn [clo_del_find forallb] in *; [reflexivity|].
+  apply andb_true_iff in H as [H1 H2]. unfold clo_idle in H1.
+  destruct (c_stat c); try discriminate H1; apply IH, H2.
+Qed.
+
+(* with all closures idle, only EAckCall / EAckRet are closure events *)
+Lemma step_clo_idle s e : clos_idle s = true -> special_event e = false -> step_clo s e = None.
+Proof.
+  unfold clos_idle. intros H Hs. destruct e; cbn [special_event] in Hs; try discriminate Hs; cbn [step_clo]; try reflexivity.
+  - rewrite clo_stat_find_idle; [reflexivity|exact H|reflexivity|reflexivity].
+  - destruct d; [|reflexivity]. rewrite clo_del_find_idle; [reflexivity|exact H].
+  - destruct k; try reflexivity. rewrite clo_stat_find_idle; [reflexivity|exact H|reflexivity|reflexivity].
+Qed.
+
+(* dispatch of an event to the coroutine whose goroutine issued it *)
+Lemma step_as_proc s e g :
+  special_event e = false -> ev_g e = Some g -> lp s <> LEnd -> clos_idle s = true -> gproc s = Some g ->
+  step s e = step_proc s e.
+Proof.
+  intros Hs Hg Hl Hc G. rewrite (step_is_gen _ _ Hs). unfold step_gen.
+  assert (Ho : conn_open s = true) by (unfold conn_open; destruct (lp s); try reflexivity; contradiction).
+  rewrite Ho, Hg, (step_clo_idle _ _ Hc Hs), (in_closure_idle _ g Hc), G, is_role_some. reflexivity.
+Qed.
+
+Lemma step_as_deq s e g :
+  special_event e = false -> ev_g e = Some g -> lp s <> LEnd -> clos_idle s = true ->
+  is_role (gproc s) g = false -> gdeq s = Some g ->
+  step s e = step_deq s e.
+Proof.
+  intros Hs Hg Hl Hc R1 G. rewrite (step_is_gen _ _ Hs). unfold step_gen.
+  assert (Ho : conn_open s = true) by (unfold conn_open; destruct (lp s); try reflexivity; contradiction).
+  rewrite Ho, Hg, (step_clo_idle _ _ Hc Hs), (in_closure_idle _ g Hc), R1, G, is_role_some. reflexivity.
+Qed.
+
+Lemma step_as_ack s e g :
+  special_event e = false -> ev_g e = Some g -> lp s <> LEnd -> clos_idle s = true ->
+  is_role (gproc s) g = false -> is_role (gdeq s) g = false -> gack s = Some g ->
+  step s e = step_ack s e.
+Proof.
+  intros Hs Hg Hl Hc R1 R2 G. rewrite (step_is_gen _ _ Hs). unfold step_gen.
+  assert (Ho : conn_open s = true) by (unfold conn_open; destruct (lp s); try reflexivity; contradiction).
+  rewrite Ho, Hg, (step_clo_idle _ _ Hc Hs), (in_closure_idle _ g Hc), R1, R2, G, is_role_some. reflexivity.
+Qed.
+
+(* a closure key that is not in use *)
+Definition fresh_k (s : bc) : N := 1 + fold_right N.max 0 (map c_k (clos s)).
+
+Lemma clo_find_above l k : fold_right N.max 0 (map c_k l) < k -> clo_find l k = None.
+Proof.
+  induction l as [|c l IH]; cbn [map fold_right clo_find]; [reflexivity|]. intros H.
+  destruct (N.eqb_spec (c_k c) k) as [E|_]; [lia|]. apply IH. lia.
+Qed.
+
+Lemma fresh_k_free s : clo_find (clos s) (fresh_k s) = None.
+Proof. apply clo_find_above. unfold fresh_k. lia. Qed.
+
+(* ---- classification of the control points ---- *)
+
+Inductive pkind := KStop | KOwn | KRet.
+
+(* processor: KStop = may have returned (proc_can_stop holds once dying);
+   KRet = inside a backend call (Authenticate, Setup, Restore, Subscribe, Unsubscribe,
+   Publish), waiting for it to return;  KOwn = its next event is an action of its own
+   (a send, a receive that fails on the closed connection, a session operation, the
+   next backend call, die / close) *)
+Definition proc_kind (x : ppc) : pkind :=
+  match x with
+  | PDone | PLoop | PSubW _ _ | PUnsubW _ _ | PPub1W _ _ | PPub2W _ => KStop
+  | PAuth _ | PSetup _ | PRestore | PSubR | PUnsubR | PPubR => KRet
+  | _ => KOwn
+  end.
+
+(* dequeuer: DWait = inside Backend.Dequeue *)
+Definition deq_kind (x : dpc) : pkind :=
+  match x with
+  | DOff | DToken | DDone => KStop
+  | DWait => KRet
+  | _ => KOwn
+  end.
+
+Definition ack_kind (x : apc) : pkind :=
+  match x with AOff | AIdle | ADone => KStop | _ => KOwn end.
+
+(* the return of a backend call *)
+Definition ret_event (e : event) : bool :=
+  match e with
+  | EAuth _ _ | ESetup _ _ | ERestore _ _ | ESubRet _ _ | EUnsubRet _ _ | EPubRet _ _ | EDeqRet _ _ => true
+  | _ => false
+  end.
+
+(* an action of the connection's own goroutine: needs nothing from the peer (no packet
+   received), nothing from the backend (no call returning, no closure invoked) *)
+Definition own_event (e : event) : bool :=
+  match e with
+  | ERxErr _ | ETx _ _ _ _ | EConnClose _ | ESub _ _ _ | EUnsub _ _ _ | EPub _ _ _ | EDeqCall _ | EDeqAck _
+  | ENextId _ _ | ESave _ _ _ _ | ELookup _ _ _ _ | EDelete _ _ _ _ | EAll _ _ _ | EDie _ _ => true
+  | _ => false
+  end.
+
+(* the next event of the processor (goroutine g; k a closure key not in use; ok: does the
+   operation succeed) *)
+Definition proc_next (s : bc) (g k : N) (ok : bool) : option event :=
+  match pp s with
+  | PFirst => Some (ERxErr g)
+  | PAuth _ => Some (EAuth g (if ok then AOk else AErr))
+  | PDeny => Some (ETx g (Connack false 5) false ok)
+  | PSetup _ => Some (ESetup g SErr)
+  | PConnack c r => Some (ETx g (Connack (negb (c_clean c) && r) 0) false ok)
+  | PAll => Some (EAll g Outgoing (if ok then Some (store_all (s_out (sess s))) else None))
+  | PResend (p :: _) => Some (ETx g (set_dup p) true ok)
+  | PResend [] => None
+  | PRestore => Some (ERestore g ok)
+  | PSubR => Some (ESubRet g ok)
+  | PUnsubR => Some (EUnsubRet g ok)
+  | PPub0 m => Some (EPub g m None)
+  | PPubR => Some (EPubRet g ok)
+  | PPubrec id => Some (ETx g (Pubrec id) true ok)
+  | PAckDel id => Some (EDelete g Outgoing id ok)
+  | PRecSave id => Some (ESave g Outgoing (Pubrel id) ok)
+  | PRelTx id => Some (ETx g (Pubrel id) true ok)
+  | PRelLookup id => Some (ELookup g Incoming id (if ok then LRes (store_lookup (s_in (sess s)) id) else LErr))
+  | PRelPub _ m => Some (EPub g m (Some k))
+  | PCompTx id => Some (ETx g (Pubcomp id) true ok)
+  | PPing => Some (ETx g Pingresp true ok)
+  | PDisc | PDieClose => Some (EConnClose g)
+  | PDieLog kd => Some (EDie g kd)
+  | PDone | PLoop | PSubW _ _ | PUnsubW _ _ | PPub1W _ _ | PPub2W _ => None
+  end.
+
+Definition deq_next (s : bc) (g : N) (ok : bool) : option event :=
+  match dp s with
+  | DWait => Some (EDeqRet g (if ok then QNone else QErr))
+  | DNextId _ _ => Some (ENextId g (fst (next_id (s_counter (sess s)))))
+  | DSave p _ => Some (ESave g Outgoing p ok)
+  | DBackAck _ => Some (EDeqAck g)
+  | DSend p => Some (ETx g p true ok)
+  | DDieLog kd => Some (EDie g kd)
+  | DDieClose => Some (EConnClose g)
+  | DOff | DToken | DDone => None
+  end.
+
+Definition ack_next (s : bc) (g : N) : option event :=
+  match ap s with
+  | ADieLog => Some (EDie g KTransport)
+  | ADieClose => Some (EConnClose g)
+  | _ => None
+  end.
+
+Lemma opt_packet_eqb_refl r : opt_packet_eqb r r = true.
+Proof. unfold opt_packet_eqb. apply option_eqb_refl, packet_eqb_refl. Qed.
+
+Lemma list_packet_eqb_refl l : list_eqb packet_eqb l l = true.
+Proof. apply list_eqb_refl, packet_eqb_refl. Qed.
+
+Lemma proc_progress s g k ok :
+  inv s -> lp s = LNone -> clos_idle s = true -> dying s = true ->
+  (gproc s = Some g \/ (gproc s = None /\ role_free s g = true)) -> clo_find (clos s) k = None ->
+  match proc_next s g k ok with
+  | Some e => ev_g e = Some g /\ (ret_event e = true <-> proc_kind (pp s) = KRet) /\
+              (ret_event e = false -> own_event e = true) /\ exists s', step s e = Some s' /\ gproc s' = Some g
+  | None => proc_kind (pp s) = KStop /\ proc_can_stop s = true
+  end.
+Proof.
+  intros (I1 & I2 & (K1 & _) & I4) Hl Hc Hdy Hg Hk.
+  assert (Hne : lp s <> LEnd) by (rewrite Hl; discriminate).
+  destruct Hg as [Hg|(Hg & Hf)].
+  - (* the processor is known *)
+    unfold proc_next, proc_can_stop. destruct (pp s) eqn:Epp; try (split; [reflexivity|first [reflexivity|exact Hdy]]).
+    all: try match goal with |- context [match ?l with [] => _ | _ :: _ => _ end] =>
+           destruct l as [|xp xrest]; [exfalso; apply (I4 [] Epp); reflexivity|] end.
+    all: (split; [reflexivity|split; [cbn [ret_event proc_kind]; split; intros Hx; try discriminate Hx; reflexivity|
+                 split; [intros Hx; first [reflexivity|discriminate Hx]|]]]).
+    all: rewrite (step_as_proc s _ g) by (try assumption; reflexivity).
+    all: unfold step_proc, die_p, guard; rewrite Epp.
+    all: rewrite ?N.eqb_refl, ?message_eqb_refl, ?packet_eqb_refl, ?Bool.eqb_reflx, ?opt_packet_eqb_refl,
+                 ?list_packet_eqb_refl; cbn [andb].
+    all: try (destruct ok; (eexists; split; [reflexivity|sf; exact Hg]); fail).
+    all: first
+      [ (* All *)
+        destruct ok; cbn beta iota; rewrite ?list_packet_eqb_refl; (eexists; split; [reflexivity|sf; exact Hg])
+      | (* re-send *)
+        inv_tdia; destruct ok; (eexists; split; [reflexivity|sf; exact Hg])
+      | (* Lookup *)
+        destruct ok; cbn beta iota; rewrite ?opt_packet_eqb_refl; [|eexists; split; [reflexivity|sf; exact Hg]];
+        match goal with |- context [store_lookup ?st ?i] => destruct (store_lookup st i) as [[]|] end;
+        (eexists; split; [reflexivity|sf; exact Hg])
+      | (* Publish of a released message: the closure key is new *)
+        unfold clo_reg; rewrite Hk; eexists; split; [reflexivity|sf; exact Hg]
+      | (* die-log *)
+        match goal with |- context [match ?k with KTransport => _ | _ => _ end] => destruct k end;
+        (eexists; split; [reflexivity|sf; exact Hg]) ].
+  - (* the processor has not made a step yet *)
+    assert (Hp : pp s = PFirst \/ pp s = PDone).
+    { destruct (pp s); try (exfalso; apply K1; exact Hg); auto. }
+    unfold proc_next, proc_can_stop. destruct Hp as [Epp|Epp]; rewrite Epp; [|split; reflexivity].
+    split; [reflexivity|split; [cbn [ret_event proc_kind]; split; intros Hx; discriminate Hx|split; [reflexivity|]]].
+    destruct (role_free_inv _ _ Hf) as (R1 & R2 & R3 & R4).
+    unfold step. unfold conn_open. rewrite Hl. cbn [negb ev_g step_clo first_some].
+    rewrite (in_closure_idle _ g Hc), R1, R2, R3, R4. unfold bind, learn_proc, guard. rewrite Hg, Hf.
+    unfold step_proc, die_p. change (pp (set_roles s (Some g) (gdeq s) (gack s) (gcl s))) with (pp s). rewrite Epp.
+    eexists; split; [reflexivity|reflexivity].
+Qed.
+
+
+Lemma deq_progress s g ok :
+  inv s -> lp s = LNone -> clos_idle s = true -> dying s = true -> (gdeq s <> None -> gdeq s = Some g) ->
+  match deq_next s g ok with
+  | Some e => ev_g e = Some g /\ (ret_event e = true <-> deq_kind (dp s) = KRet) /\
+              (ret_event e = false -> own_event e = true) /\ exists s', step s e = Some s' /\ gdeq s' = Some g
+  | None => deq_kind (dp s) = KStop /\ deq_can_stop s = true
+  end.
+Proof.
+  intros (I1 & I2 & (_ & K2 & _) & I4) Hl Hc Hdy Hg.
+  assert (Hne : lp s <> LEnd) by (rewrite Hl; discriminate).
+  unfold deq_next, deq_can_stop. destruct (dp s) eqn:Edp; try (split; [reflexivity|first [reflexivity|exact Hdy]]).
+  all: specialize (Hg K2).
+  all: assert (R1 : is_role (gproc s) g = false)
+         by (apply is_role_false_of; intros E; destruct (I1 g) as (H1 & _); destruct (H1 E) as (Hx & _); contradiction).
+  all: (split; [reflexivity|split; [cbn [ret_event deq_kind]; split; intros Hx; try discriminate Hx; reflexivity|
+               split; [intros Hx; first [reflexivity|discriminate Hx]|]]]).
+  all: rewrite (step_as_deq s _ g) by (try assumption; reflexivity).
+  all: unfold step_deq, guard; rewrite Edp.
+  all: rewrite ?N.eqb_refl, ?packet_eqb_refl; cbn [andb].
+  all: try (destruct ok; (eexists; split; [reflexivity|sf; exact Hg]); fail).
+  all: first
+    [ (* ENextId *)
+      destruct (next_id (s_counter (sess s))) as [i c] eqn:En; cbn [fst]; rewrite N.eqb_refl;
+      eexists; split; [reflexivity|sf; exact Hg]
+    | (* ETx *)
+      destruct ok; [|eexists; split; [reflexivity|sf; exact Hg]];
+      match goal with |- context [match ?p with Publish _ _ _ => _ | _ => _ end] => destruct p end;
+      try (eexists; split; [reflexivity|sf; exact Hg]);
+      match goal with |- context [if ?b then _ else _] => destruct b end; (eexists; split; [reflexivity|sf; exact Hg])
+    | (* die-log *)
+      match goal with |- context [match ?k with KTransport => _ | _ => _ end] => destruct k end;
+      (eexists; split; [reflexivity|sf; exact Hg]) ].
+Qed.
+
+Lemma ack_progress s g :
+  inv s -> lp s = LNone -> clos_idle s = true -> dying s = true -> (gack s <> None -> gack s = Some g) ->
+  match ack_next s g with
+  | Some e => ev_g e = Some g /\ ret_event e = false /\ own_event e = true /\
+              exists s', step s e = Some s' /\ gack s' = Some g
+  | None => ack_kind (ap s) = KStop /\ ack_can_stop s = true
+  end.
+Proof.
+  intros (I1 & I2 & (_ & _ & K3) & I4) Hl Hc Hdy Hg.
+  assert (Hne : lp s <> LEnd) by (rewrite Hl; discriminate).
+  unfold ack_next, ack_can_stop. destruct (ap s) eqn:Eap; try (split; [reflexivity|first [reflexivity|exact Hdy]]).
+  all: specialize (Hg K3).
+  all: assert (R1 : is_role (gproc s) g = false)
+         by (apply is_role_false_of; intros E; destruct (I1 g) as (H1 & _); destruct (H1 E) as (_ & Hx & _); contradiction).
+  all: assert (R2 : is_role (gdeq s) g = false)
+         by (apply is_role_false_of; intros E; destruct (I1 g) as (_ & H2 & _); destruct (H2 E) as (Hx & _); contradiction).
+  all: (split; [reflexivity|split; [reflexivity|split; [reflexivity|]]]).
+  all: rewrite (step_as_ack s _ g) by (try assumption; reflexivity).
+  all: unfold step_ack; rewrite Eap; (eexists; split; [reflexivity|sf; exact Hg]).
+Qed.
+
+(* the goroutine of a coroutine (for the processor: any unused number if it has not
+   made a step yet) *)
+Definition proc_g (s : bc) : N := match gproc s with Some g => g | None => fresh_g s end.
+
+Theorem dying_stops : forall es s, bc_run es = Some s ->
+  dying s = true -> lp s = LNone -> clos_idle s = true ->
+  forall ok,
+  (* processor *)
+  match proc_next s (proc_g s) (fresh_k s) ok with
+  | Some e => ev_g e = Some (proc_g s) /\ (ret_event e = true <-> proc_kind (pp s) = KRet) /\
+              (ret_event e = false -> own_event e = true) /\
+              exists s', step s e = Some s' /\ gproc s' = Some (proc_g s)
+  | None => proc_kind (pp s) = KStop /\ proc_can_stop s = true
+  end /\
+  (* dequeuer *)
+  match deq_next s (og (gdeq s)) ok with
+  | Some e => ev_g e = Some (og (gdeq s)) /\ (ret_event e = true <-> deq_kind (dp s) = KRet) /\
+              (ret_event e = false -> own_event e = true) /\
+              exists s', step s e = Some s' /\ gdeq s' = Some (og (gdeq s))
+  | None => deq_kind (dp s) = KStop /\ deq_can_stop s = true
+  end /\
+  (* acker *)
+  match ack_next s (og (gack s)) with
+  | Some e => ev_g e = Some (og (gack s)) /\ ret_event e = false /\ own_event e = true /\
+              exists s', step s e = Some s' /\ gack s' = Some (og (gack s))
+  | None => ack_kind (ap s) = KStop /\ ack_can_stop s = true
+  end.
+Proof.
+  intros es s Hrun Hdy Hl Hc ok. pose proof (inv_reachable es s Hrun) as HI.
+  split; [|split].
+  - apply proc_progress; try assumption; [|apply fresh_k_free].
+    unfold proc_g. destruct (gproc s) as [g|] eqn:E; [left; reflexivity|right; split; [reflexivity|apply fresh_role_free]].
+  - apply deq_progress; try assumption. destruct (gdeq s); [reflexivity|intros Hx; contradiction].
+  - apply ack_progress; try assumption. destruct (gack s); [reflexivity|intros Hx; contradiction].
+Qed.
+
+(* consequences in words: every control point is classified, and the classification
+   of the enabled event agrees with it *)
+Corollary dying_stops_summary : forall es s, bc_run es = Some s ->
+  dying s = true -> lp s = LNone -> clos_idle s = true ->
+  (proc_kind (pp s) = KStop -> proc_can_stop s = true) /\
+  (deq_kind (dp s) = KStop -> deq_can_stop s = true) /\
+  (ack_kind (ap s) = KStop -> ack_can_stop s = true) /\
+  (proc_kind (pp s) <> KStop -> exists e s', step s e = Some s' /\ ev_g e = Some (proc_g s) /\
+      (if ret_event e then proc_kind (pp s) = KRet else own_event e = true /\ proc_kind (pp s) = KOwn)) /\
+  (deq_kind (dp s) <> KStop -> exists e s', step s e = Some s' /\ ev_g e = Some (og (gdeq s)) /\
+      (if ret_event e then deq_kind (dp s) = KRet else own_event e = true /\ deq_kind (dp s) = KOwn)) /\
+  (ack_kind (ap s) <> KStop -> exists e s', step s e = Some s' /\ ev_g e = Some (og (gack s)) /\
+      ret_event e = false /\ own_event e = true).
+Proof.
+  intros es s Hrun Hdy Hl Hc. destruct (dying_stops es s Hrun Hdy Hl Hc true) as (Hp & Hd & Ha).
+  split; [|split; [|split; [|split; [|split]]]].
+  - destruct (proc_next s (proc_g s) (fresh_k s) true) as [e|]; [|intros _; apply Hp].
+    destruct Hp as (_ & _ & _ & _). intros Hk. unfold proc_can_stop. destruct (pp s); try discriminate Hk; try reflexivity; exact Hdy.
+  - intros Hk. unfold deq_can_stop. destruct (dp s); try discriminate Hk; try reflexivity; exact Hdy.
+  - intros Hk. unfold ack_can_stop. destruct (ap s); try discriminate Hk; try reflexivity; exact Hdy.
+  - intros Hk. destruct (proc_next s (proc_g s) (fresh_k s) true) as [e|]; [|destruct Hp as [Hx _]; contradiction].
+    destruct Hp as (Hg & Hr & Ho & s' & Hs & _). exists e, s'. split; [exact Hs|split; [exact Hg|]].
+    destruct (ret_event e) eqn:Er; [apply Hr; reflexivity|]. split; [apply Ho; reflexivity|].
+    destruct (proc_kind (pp s)) eqn:Ek; [contradiction|reflexivity|]. destruct Hr as [_ Hr]. specialize (Hr eq_refl). discriminate Hr.
+  - intros Hk. destruct (deq_next s (og (gdeq s)) true) as [e|]; [|destruct Hd as [Hx _]; contradiction].
+    destruct Hd as (Hg & Hr & Ho & s' & Hs & _). exists e, s'. split; [exact Hs|split; [exact Hg|]].
+    destruct (ret_event e) eqn:Er; [apply Hr; reflexivity|]. split; [apply Ho; reflexivity|].
+    destruct (deq_kind (dp s)) eqn:Ek; [contradiction|reflexivity|]. destruct Hr as [_ Hr]. specialize (Hr eq_refl). discriminate Hr.
+  - intros Hk. destruct (ack_next s (og (gack s))) as [e|]; [|destruct Ha as [Hx _]; contradiction].
+    destruct Ha as (Hg & Hr & Ho & s' & Hs & _). exists e, s'. repeat split; assumption.
+Qed.
